@@ -75,7 +75,13 @@ func runC14(r *ev.Run) {
 		if sf.Heavy && !isThorough(r) && sf.Name != "quic(mem)" && sf.Name != "ssh" && sf.Name != "p2pke(udp)" {
 			continue
 		}
-		for rep := 0; rep < reps; rep++ {
+		// reassembling layers get extra runs over a transport with a short receive queue: a layer that keeps a reference to a
+		// transport buffer past its callback then shares it with the transport's next delivery
+		shortq := 0
+		if sf.Name == "frag(mem)" || sf.Name == "mbapp(mem)" {
+			shortq = pick(r, 2, 4)
+		}
+		for rep := 0; rep < reps+shortq; rep++ {
 			idx++
 			cg := g.Fork()
 			if !r.Mine(idx) {
@@ -85,7 +91,11 @@ func runC14(r *ev.Run) {
 			if !r.Want(caseID) {
 				continue
 			}
-			st, err := sf.Build(stackOptsFor(sf.Name, cg))
+			so := stackOptsFor(sf.Name, cg)
+			if rep >= reps {
+				so.queueLen = []int{4, 8, 2, 16}[(rep-reps)%4]
+			}
+			st, err := sf.Build(so)
 			if err != nil {
 				r.Inconclusive("cannot build " + sf.Name)
 				continue
